@@ -140,6 +140,12 @@ class Device:
         # registers nobody refers to (the RegOwn* ones are all re-opened by some ref that overrides the access)
         self.lone = [(f"LoneOwn{tag(o)}", o) for o in OPT]
         self.bufs = [(f"BufOwn{tag(o)}", o) for o in OPT]
+        # a register defined TWICE under exclusive cfgs (`cfg(all())` holds in every build, `cfg(any())` in none) with
+        # different access, and a ref to it without access override: the ref must behave like the definition that EXISTS
+        # in the build.  (name, which definition comes first, active access, inactive access); DSL only — a manifest is
+        # a map and cannot hold one key twice.
+        self.dups = [(f"Dup{arr}{tag(a)}{tag(i)}", arr, a, i) for arr in ("Act", "Ina")
+                     for (a, i) in (("RW", "RO"), ("RO", "RW"), ("WO", "RW"))] if fe == "dsl" else []
         self.fields = [(f"f_{tag(o).lower()}", o) for o in OPT]
         self.only = only   # replay: restrict to the objects one probe needs
 
@@ -165,6 +171,16 @@ class Device:
         for name, own in self.lone:
             acc = f" type Access = {own};" if own else ""
             L.append(f"register {name} {{{acc} const ADDRESS = {addr}; const SIZE_BITS = 8; v: RW uint = 0..8, }},")
+            addr += 1
+        for name, arr, act, ina in self.dups:
+            defs = [("all()", act), ("any()", ina)]
+            if arr == "Ina":
+                defs.reverse()
+            for cfgx, acc in defs:
+                L.append(f"#[cfg({cfgx})]")
+                L.append(f"register {name} {{ type Access = {acc}; const ADDRESS = {addr}; const SIZE_BITS = 8; v: RW uint = 0..8, }},")
+                addr += 1
+            L.append(f"ref Ref{name} = register {name} {{ const ADDRESS = {addr}; }},")
             addr += 1
         for i, (name, own) in enumerate(self.bufs):
             L.append(f"buffer {name}{': ' + own if own else ''} = {i},")
@@ -299,6 +315,11 @@ def enumerate_probes(devices, ops):
                 if k == "Reg":
                     P.append(dict(dev=d, kind="Reg", obj=name, method=snake(name), own=t, refov=o, is_ref=True,
                                   gdef=d.greg, op=n))
+        for name, arr, act, ina in d.dups:
+            for (k, n) in ops:
+                if k == "Reg":
+                    P.append(dict(dev=d, kind="Reg", obj="Ref" + name, method=snake("Ref" + name), own=act, refov=None, is_ref=True,
+                                  gdef=d.greg, op=n, dup=arr, shadow_own=ina))
         for name, own in d.bufs:
             for (k, n) in ops:
                 if k == "Buf":
@@ -661,6 +682,13 @@ def run(ctx):
     err = model_verdicts(ctx, probes)
     if err:
         return fail_no_input(err)
+    # D23: what the probe would do if the ref carried the access of the definition that does NOT exist in the build
+    shadows = [dict(p, own=p["shadow_own"]) for p in probes if p.get("dup") == "Ina"]
+    err = model_verdicts(ctx, shadows) if shadows else None
+    if err:
+        return fail_no_input(err)
+    for p, q in zip([p for p in probes if p.get("dup") == "Ina"], shadows):
+        p["d23_behaviour_compiles"] = q["property_says_compiles"]
     root = os.path.join(ctx.work, "probe")
     by_probe, dev_errs, stray, rc, other, reached = evaluate(ctx, devices, probes, root)
     ctx.log(f"probe crate: {len(probes)} probe functions, {len(devices)} devices, cargo check rc={rc}, "
@@ -701,9 +729,12 @@ def run(ctx):
                              diagnostics=stray[:5], cargo_output=other[-15:])
 
     violations = []          # (probe, why)
-    known_hits = {"D5": [], "D7": []}
+    known_hits = {"D5": [], "D7": [], "D23": []}
     for p in probes:
         if p["rustc_compiles"] == p["property_says_compiles"]:
+            continue
+        if p.get("dup") == "Ina" and "D23" in known and p["rustc_compiles"] == p["d23_behaviour_compiles"]:
+            known_hits["D23"].append(p)
             continue
         d5_class = (p["dev"].is_manifest and p["gdef"] is not None and p["own"] is None and p["refov"] is None)
         if d5_class and "D5" in known and p["rustc_compiles"] == p["d5_behaviour_compiles"]:
@@ -746,6 +777,13 @@ def run(ctx):
                            f"were given, e.g. {ex['dev'].mod}.{ex['method']} ({ex['kind']}, default {ex['gdef']}) "
                            f"{ex['op']}: property says compiles={ex['property_says_compiles']}, rustc compiles={ex['rustc_compiles']}")
         cov["known_D5_probes"] = len(ps)
+    if known_hits["D23"]:
+        ps = known_hits["D23"]
+        ex = ps[0]
+        vlib.known_finding(ctx, known["D23"], f"a ref to a register defined under several cfgs takes the access of the FIRST definition "
+                           f"although that one does not exist in the build: {len(ps)} probes, e.g. {ex['dev'].mod}.{ex['method']} "
+                           f"{ex['op']}: the existing definition is {ex['own']}, the ref behaves as {ex['shadow_own']}")
+        cov["known_D23_probes"] = len(ps)
     if known_hits["D7"]:
         hs = known_hits["D7"]
         vlib.known_finding(ctx, known["D7"], f"Debug impl of a field set calls the getter of a write-only field: {len(hs)} "
